@@ -247,7 +247,7 @@ prop("C03", engine="e1", rule=(
     "definition is compared with the model's select() over strictly more "
     "general definitions; non-trivial = some definition has >= 2 strictly "
     "more general definitions"),
-    quick=dict(cases=10000, size=60), thorough=dict(cases=300000, size=100))
+    quick=dict(also=[dict(engine="e2", workers=3, cases=600)], cases=10000, size=60), thorough=dict(also=[dict(engine="e2", workers=3, cases=20000)], cases=300000, size=100))
 prop("C04", engine="e1", rule=(
     "lattice-biased random registries, canonical and arbitrary legal "
     "presentations; slot injectivity per class from installed slots, "
@@ -1041,7 +1041,7 @@ def write_manifest():
              "and dispatch templates under 12 policy configurations; "
              "rapidcheck-driven, brute-force reference model"},
             {"name": "e2", "path": "harness/e2",
-             "serves_properties": ["C01", "C02", "C09", "C11", "C15"],
+             "serves_properties": ["C01", "C02", "C03", "C09", "C11", "C15"],
              "kind_free_text": "typed universe: 13 real classes (chains, "
              "non-virtual multiple inheritance, virtual diamond), 22 methods "
              "in 7 parameter kinds, 5 policies built from the stock ones; "
